@@ -69,11 +69,9 @@ def mixed_edge_moral_graph(
     G_a = nx.compose(G_a, G_bidirected)
 
     for component in nx.connected_components(G_bidirected):
-        for u, v in itertools.combinations(component, 2):
-            G_a.add_edge(u, v)
         all_parents = {parent for node in component for parent in G_directed.predecessors(node)}
-        for node in component:
-            for parent in all_parents - {node}:
-                G_a.add_edge(node, parent)
+        # a district together with all of its parents is collider connected, hence a clique
+        for u, v in itertools.combinations(set(component) | all_parents, 2):
+            G_a.add_edge(u, v)
 
     return G_a
